@@ -1,3 +1,4 @@
+(* C05 - preservation of the per-blocker assertion binv *)
 From Coq Require Import List Arith Bool Lia.
 Import ListNotations.
 Require Import MayV.Sync.MutexModel MayV.Sync.MutexInv.
